@@ -137,10 +137,25 @@ def conj(e, env, positive=True):
     return [c[1:] if c.startswith('!') else '!' + c]
 
 
+def _mutated_names(e):
+    from facts import walk
+    out = set()
+    for x in walk(e):
+        if x.get('k') in ('Assign', 'AssignOp'):
+            t = peel(x['ch'][0])
+            while t.get('k') == 'Field':
+                t = peel(t['ch'][0])
+            if t.get('k') == 'Path' and t.get('res') == 'local':
+                out.add(t['name'])
+    return out
+
+
 def paths(e, env=None, conds=frozenset(), effects=()):
     """Yield (conds, leaf, effects) for every control path of e."""
     env = dict(env or {})
     e = peel(e)
+    if '__mutated__' not in env:
+        env['__mutated__'] = _mutated_names(e)
     k = e.get('k')
     if k == 'Block':
         eff = list(effects)
@@ -155,7 +170,8 @@ def paths(e, env=None, conds=frozenset(), effects=()):
                     def bind(p_, v_, en=en):
                         nonlocal ef
                         c = canon(v_, en)
-                        if p_.get('mut') or len(c) > 60 or '|' in c or (re.search(r'\bself\.\w', c) and not c.endswith(')')):
+                        if p_.get('mut') or len(c) > 60 or '|' in c or (re.search(r'\bself\.\w', c) and not c.endswith(')')) \
+                                or any(re.search(r'\b%s\b' % re.escape(m_), c) for m_ in en.get('__mutated__', ()) if m_ != 'self'):
                             # mutable or effectful / long initialiser: keep the name
                             en[p_['local']] = p_['name']
                             ef = ef + ('%s := %s' % (p_['name'], c),)
